@@ -17,20 +17,21 @@ from fractions import Fraction as Fr
 LEVEL = "proof"
 MANIFEST_ENTRY = {
     "category": "proof",
-    "text": "Lean 4 theorems over an executable model of the reliability-sorting unwrapper (edge construction for bounded/periodic grids with masks, union-find with offsets exactly as UnionFindPhase: no path compression, union by rank, the code's sign conventions; final offsets; mean removal; the bright-field embedding). The merge ORDER is an input of the model, so every theorem holds for every order the float reliability sort could produce. Proved for all sizes, masks, edge multigraphs (self-loops/duplicates included) and orders: termination of find (rank strictly increases to the root), the offset-consistency invariant (every stored offset is n(pixel)-n(parent) for any integer field the increments are differences of), Itoh => increments are wrap-count differences (over the reals, threshold pi), hence out - truth is constant on every connected component of the masked edge graph; out - input is in 2*pi*Z plus one constant for every input; smooth unwrapped input is returned up to one constant; same-tree edges are no-ops; the grid-level body of unwrap_bf_overlap_phase_torch (mask test, max-min>pi test, one or two passes) returns the truth up to a constant per connected overlap region in every branch; the model's edge graph is the 4-neighbour graph (bounded and periodic). The model is tied to the code on every run by exact differential streams (edge multisets, union-find arrays on the real edge order, final offsets, end-to-end fields, bf-overlap embedding) and the property predicate is evaluated on the real outputs with an independent connected-component / wrap-count oracle.",
-    "note": "Trusted: Lean kernel + propext/Classical.choice/Quot.sound; hand model validated by sampled correspondence only; torch indexing/roll/argsort/where semantics; IEEE rounding (inputs are dyadic multiples of pi kept >= 2^-6*pi away from the +-pi thresholds so no float comparison is decided by rounding; the real code keeps offsets in float32, measured deviation from the exact model is reported); _pixel_reliability only decides the order and is therefore not modelled; the Poisson method is outside the claim; the scatter/gather indexing around the bf-overlap body (phase_grid[bf_mask] = ..., return phase_grid[bf_mask]) is tied by correspondence only.",
+    "text": "Lean 4 theorems over an executable model of the reliability-sorting unwrapper (edge construction for bounded/periodic grids with masks, union-find with offsets exactly as UnionFindPhase: no path compression, union by rank, the code's sign conventions; final offsets; mean removal; the bright-field embedding). The merge ORDER is an input of the model, so every theorem holds for every order the float reliability sort could produce. Proved for all sizes, masks, edge multigraphs (self-loops/duplicates included) and orders: termination of find (rank strictly increases to the root), the offset-consistency invariant (every stored offset is n(pixel)-n(parent) for any integer field the increments are differences of), Itoh => increments are wrap-count differences (over the reals, threshold pi), hence out - truth is constant on every connected component of the masked edge graph; out - input is in 2*pi*Z plus one constant for every input; smooth unwrapped input is returned up to one constant; same-tree edges are no-ops; the grid-level body of unwrap_bf_overlap_phase_torch (mask test, max-min>pi test, one or two passes) returns the truth up to a constant per connected overlap region in every branch; the model's edge graph is the 4-neighbour graph (bounded and periodic; the periodic edge list is characterised as a multiset for every HxW incl. H or W in {1,2}: self-loops / double edges exactly there); the input is taken raw: recovery holds for any representative of the truth whose neighbouring wrap counts are at most one apart (any 2*pi window such as [0,2pi), partially or fully unwrapped input), with a counterexample two cycles apart; the result is independent of the reliability (any comparison function used for the sort, any wrap function inside _pixel_reliability); the whole unwrap_bf_overlap_phase_torch incl. scatter phase_grid[bf_mask]=... and gather is correct entry by entry, for every number of images. _pixel_reliability (wrapped second differences, periodic rolls) and the sort are modelled exactly and the real edge ORDER is checked to be ascending in the model's exact rational reliabilities. The model is tied to the code on every run by exact differential streams (edge multisets, union-find arrays on the real edge order, final offsets, end-to-end fields, bf-overlap embedding) and the property predicate is evaluated on the real outputs with an independent connected-component / wrap-count oracle.",
+    "note": "Trusted: Lean kernel + propext/Classical.choice/Quot.sound; hand model validated by sampled correspondence only; torch indexing/roll/argsort/where semantics; IEEE rounding (inputs are dyadic multiples of pi kept >= 2^-6*pi away from the +-pi thresholds so no float comparison is decided by rounding; the real code keeps offsets in float32, measured deviation from the exact model is reported); argsort ties may come out in any order (the model's stable merge sort is one admissible outcome; the order stream uses phases on a pi/16 grid so that distinct reliabilities are far apart); the Poisson method is outside the claim; the caller's loop over images (direct_ptychography.py) is reproduced by the harness, not executed through DirectPtychography.",
     "technique": "Lean 4 proof (forest/rank invariant, offset telescoping, Itoh lemma over R) + exact model-vs-implementation correspondence",
 }
 RULE = ("generated phase fields (ramps, quadratics, Gaussian bumps, band-limited random, periodic, raw non-smooth, "
-        "already-unwrapped) on grids up to 24x24 (a few float16 fields up to 60x60) with masks (none, rectangle, annulus, multi-component, blobs with holes, "
+        "already-unwrapped, stored in [-pi,pi), [0,2pi), a shifted window or partially unwrapped) on grids up to 24x24 (medium 40..64 per side, "
+        "float16 up to 60x60, long thin up to 3x900, seam-only-connected bands on periodic non-square grids with H or W in {1,2}) with masks (none, rectangle, annulus, multi-component, blobs with holes, "
         "sparse, border-touching) and wrap_around on/off, float16/32/64; a case is one call of the real unwrapper "
-        "(or one union-find run / one _build_edges call); distinct non-trivial = distinct (stream, field kind, mask kind, "
+        "(or one union-find run / one _build_edges call / one reliability+order comparison / one stack of bf images); distinct non-trivial = distinct (stream, field kind, mask kind, "
         "wrap, dtype, H, W, #mask components bucket, wrap-count range) among cases whose field really wraps "
         "(the true wrap count varies inside a connected mask component) or, for union-find runs, that perform at least 3 merges")
 TRUSTED = ["torch tensor indexing / roll / where / argsort / stack semantics (exercised, not verified)",
            "IEEE rounding: inputs are dyadic multiples of pi kept >= 2^-6*pi from the +-pi thresholds; offsets are float32 in the code, exact integers in the model",
-           "_pixel_reliability only determines the merge order, which is an input of the model (any order is covered by the theorems)"]
-ASSUMPTIONS = ["grids <= 24x24 in the correspondence, plus a few float16 fields on 46..60 x 46..60 grids and long thin grids (1..3 x 300..900 and transposed, wrap counts past 127/255; thorough: one 1 x 74000 ramp past 32767) (theorems: all sizes)",
+           "_pixel_reliability only determines the merge order (theorems: any order); it is modelled exactly and compared (values to tolerance, order exactly) on a pi/16 phase grid"]
+ASSUMPTIONS = ["grids <= 24x24 in the correspondence, plus a few 40..64 x 40..64 grids per run, a few float16 fields on 46..60 x 46..60 grids and long thin grids (1..3 x 300..900 and transposed, wrap counts past 127/255; thorough: one 1 x 74000 ramp past 32767) (theorems: all sizes)",
                "Itoh is required on the edges actually used (inside the mask, including periodic seam edges when wrap_around=True); values outside the mask are arbitrary",
                "tolerance on assembled outputs: 5e-4*max(1,max|model|) (the code forces float32 offsets: 2*pi*incs is rounded to float32 even for float64 input); all wrap-count comparisons are exact integers"]
 EXPLANATION = ("Theorems in Props/C17.lean are about Model/Unwrap.lean (run at Rat, units of pi, by the driver; proved at R with "
@@ -270,7 +271,7 @@ def gen_unwrap_case(rng, small=False):
     wrap = rng.chance(0.5)
     mkind = rng.weighted(MASK_KINDS)
     mask = gen_mask(rng, H, W, mkind)
-    mode = rng.weighted([("wrapped", 8), ("unwrapped", 2), ("raw", 2)])
+    mode = rng.weighted([("wrapped", 6), ("zero2pi", 2), ("window", 1), ("partial", 1), ("unwrapped", 2), ("raw", 2)])
     dtype = rng.choice(["float32", "float64"])
     pairs = used_pairs(H, W, mask, wrap)
     if mode == "raw":
@@ -287,14 +288,17 @@ def gen_unwrap_case(rng, small=False):
         off = rng.randint(-2 * DEN, 2 * DEN)     # random piston: wrap lines fall anywhere
         qn = [v + off for v in qn]
         outside = "smooth"
-        if mode == "wrapped" and mask is not None and rng.chance(0.5):
+        if mode in ("wrapped", "zero2pi") and mask is not None and rng.chance(0.5):
             # what lies outside the mask must not matter: zeros (as the bf embedding produces) or garbage
             outside = rng.choice(["zeros", "garbage"])
             for i in range(N):
                 if not mask[i]:
                     qn[i] = 0 if outside == "zeros" else rng.randint(-4 * DEN, 4 * DEN)
-    return {"stream": "unwrap", "H": H, "W": W, "wrap": wrap, "mask": mask, "mode": mode, "dtype": dtype,
+    case = {"stream": "unwrap", "H": H, "W": W, "wrap": wrap, "mask": mask, "mode": mode, "dtype": dtype,
             "qn": qn, "kind": kind, "mkind": mkind, "outside": outside}
+    if mode == "window":
+        case["c"] = rng.randint(-3 * DEN, 3 * DEN)
+    return case
 
 
 def gen_raw(rng, N, pairs):
@@ -383,10 +387,18 @@ def field_tensor(case):
     import torch
     H, W = case["H"], case["W"]
     q = [Fr(v, DEN) for v in case["qn"]]
-    if case["mode"] == "wrapped":
-        wn = [wrap_q(x) for x in q]
-        w = [a for a, _ in wn]
-        n = [b for _, b in wn]
+    mode = case["mode"]
+    if mode in ("wrapped", "zero2pi", "window", "partial"):
+        # stored value = truth moved by whole cycles into the window [c, c+2) (units of pi):
+        # c = -1 is _wrap_to_pi's convention, c = 0 the [0, 2pi) convention, any other c a shifted window
+        c = {"wrapped": Fr(-1), "zero2pi": Fr(0), "partial": Fr(-1)}.get(mode)
+        if c is None:
+            c = Fr(case["c"], DEN)
+        n = [math.floor((x - c) / 2) for x in q]
+        if mode == "partial":
+            # partially unwrapped input: only every other cycle is still wrapped (neighbouring wrap counts stay <= 1 apart)
+            n = [-((-k) // 2) for k in n]
+        w = [x - 2 * k for x, k in zip(q, n)]
     else:
         w = q
         n = [0] * len(q)
@@ -460,7 +472,7 @@ def eval_unwrap_case(ctx, drv, case, report_case=None):
     maskl = case["mask"]
     pairs = used_pairs(H, W, maskl, wrap)
     lab, ncomp = components(N, pairs, maskl)
-    smooth = case["mode"] in ("wrapped", "unwrapped")
+    smooth = case["mode"] != "raw"
     # ---- the real code
     rec = Recorder(iu)
     try:
@@ -484,7 +496,7 @@ def eval_unwrap_case(ctx, drv, case, report_case=None):
     ctx.dist[f"unwrap:really-wraps:{wraps}"] += 1
     if wraps:
         ctx.mark(("unwrap", case["kind"], case["mkind"], wrap, case["dtype"], H, W, min(ncomp, 4), min(nrange, 6)))
-    small_case = report_case or {k: case[k] for k in ("stream", "H", "W", "wrap", "mask", "mode", "dtype", "qn", "kind", "mkind", "outside")}
+    small_case = report_case or {k: case[k] for k in ("stream", "H", "W", "wrap", "mask", "mode", "dtype", "qn", "kind", "mkind", "outside", "c") if k in case}
     if err is not None:
         pred_fail(ctx, "unwrap-raises", f"unwrap_phase_2d_torch raised {err}", small_case, observed=err, required="a result")
         return
@@ -501,9 +513,9 @@ def eval_unwrap_case(ctx, drv, case, report_case=None):
     redges = rec.edges[0]
     reqs = [dict(base, op="edges"),
             {"op": "uf", "N": N, "edges": redges},
-            # the model's assemble is quadratic in N (List.getD): skipped above 4000 px, where the edge multiset and
-            # the integer union-find state / final offsets on the real order are still compared exactly
-            dict(base, op="unwrap", order=[[a, b] for a, b, _ in redges]) if N <= 4000 else {"op": "find_wrap", "a": "0/1", "b": "0/1"}]
+            # the model's assembled output is skipped above 6000 px (only the 1 x 74000 case), where the edge multiset
+            # and the integer union-find state / final offsets on the real order are still compared exactly
+            dict(base, op="unwrap", order=[[a, b] for a, b, _ in redges]) if N <= 6000 else {"op": "find_wrap", "a": "0/1", "b": "0/1"}]
     # one request at a time: pipelining large requests can dead-lock on the pipe buffers (qv.driver.ask_many)
     m_edges, m_uf, m_unw = [drv.ask(r) for r in reqs]
     for m in (m_edges, m_uf, m_unw):
@@ -519,7 +531,7 @@ def eval_unwrap_case(ctx, drv, case, report_case=None):
     if m_uf.get("ok") != impl_uf:
         disagree(ctx, "union-find", small_case, m_uf.get("ok", m_uf), impl_uf, note="parent/rank/offset/final offsets on the real edge order")
     # (iii) end to end
-    if N > 4000:
+    if N > 6000:
         return
     mo = m_unw.get("ok")
     if mo is None:
@@ -662,6 +674,166 @@ def eval_long_case(ctx, drv, c):
     eval_unwrap_case(ctx, drv, full, report_case=c)
 
 
+def gen_medium_case(rng):
+    """medium grids (40..64 per side): ordinary fields, masks and dtypes"""
+    H, W = rng.randint(40, 64), rng.randint(40, 64)
+    N = H * W
+    wrap = rng.chance(0.4)
+    mkind = rng.weighted([("none", 3), ("annulus", 2), ("multi", 2), ("blobs", 2), ("border", 1)])
+    mask = gen_mask(rng, H, W, mkind)
+    pairs = used_pairs(H, W, mask, wrap)
+    kind = "periodic" if (wrap and rng.chance(0.7)) else rng.weighted(FIELD_KINDS)
+    qn = quantise_itoh(rng, gen_float_field(rng, H, W, kind), pairs, gen_target(rng))
+    off = rng.randint(-2 * DEN, 2 * DEN)
+    qn = [v + off for v in qn]
+    return {"stream": "unwrap", "H": H, "W": W, "wrap": wrap, "mask": mask, "mode": rng.choice(["wrapped", "wrapped", "zero2pi"]),
+            "dtype": rng.choice(["float32", "float64"]), "qn": qn, "kind": kind, "mkind": mkind, "outside": "smooth"}
+
+
+def gen_seam_case(rng):
+    """periodic grid whose mask component is held together ONLY by the seam of exactly one axis: a band that spans
+    the periodic axis completely, cut once across; the ramp runs through the seam.  Non-square sizes, the other
+    axis of length 1, 2 or more (H or W in {1, 2}: self-loops / double edges)."""
+    L = rng.randint(3, 22)                       # length of the axis whose seam is used
+    R = rng.weighted([(1, 2), (2, 3), (rng.randint(3, 12), 5)])
+    if R == L:
+        R += 1
+    transposed = rng.chance(0.5)                 # False: seam of axis 1 (columns wrap), True: seam of axis 0
+    if R <= 2:
+        r0, r1 = 0, R - 1
+    else:                                        # the band must not span the other axis (its seam is not to be used)
+        r0 = rng.randint(0, R - 2)
+        r1 = rng.randint(r0, R - 2) if r0 > 0 or rng.chance(0.5) else rng.randint(r0, R - 2)
+        if rng.chance(0.5):                      # or push it against the far border instead
+            sh = R - 1 - r1
+            r0, r1 = r0 + sh, r1 + sh
+            if r0 == 0:
+                r0 = 1 if r1 >= 1 else 0
+    k = 1 if L <= 4 else rng.randint(1, 2)
+    c0 = rng.randint(0, L - 1)
+    cut = {(c0 + j) % L for j in range(k)}
+    start = (c0 + k) % L
+    sign = 1 if rng.chance(0.5) else -1
+    P = [0]
+    for _ in range(L - 1):
+        P.append(P[-1] + sign * rng.randint(int(0.45 * DEN), int(0.96 * DEN)))
+    off = rng.randint(-2 * DEN, 2 * DEN)
+    rowstep = rng.randint(-400, 400)
+    val = lambda r, x: P[(x - start) % L] + off + r * rowstep  # noqa
+    inm = lambda r, x: int(r0 <= r <= r1 and x not in cut)  # noqa
+    garbage = rng.chance(0.5)
+    if transposed:
+        H, W = L, R
+        cells = [(r, x) for x in range(L) for r in range(R)]
+    else:
+        H, W = R, L
+        cells = [(r, x) for r in range(R) for x in range(L)]
+    mask = [inm(r, x) for r, x in cells]
+    qn = [val(r, x) if inm(r, x) or not garbage else rng.randint(-3 * DEN, 3 * DEN) for r, x in cells]
+    return {"stream": "unwrap", "H": H, "W": W, "wrap": True, "mask": mask, "mode": rng.choice(["wrapped", "zero2pi"]),
+            "dtype": rng.choice(["float32", "float64"]), "qn": qn, "kind": "seam-axis0" if transposed else "seam-axis1",
+            "mkind": "band-cut", "outside": "garbage" if garbage else "smooth"}
+
+
+# ---------------------------------------------------------------------------------------
+# `_pixel_reliability` and the edge ORDER (exact: phases are multiples of pi/16, no wrapped difference on the
+# +-pi boundary, so distinct reliabilities differ by >= pi^2/256 and no float comparison is decided by rounding)
+
+ODEN = 16
+
+
+def nb8(H, W, i):
+    r, c = divmod(i, W)
+    return [((r + dr) % H) * W + (c + dc) % W for dr in (-1, 0, 1) for dc in (-1, 0, 1) if (dr, dc) != (0, 0)]
+
+
+def gen_order_case(rng):
+    if rng.chance(0.25):
+        H, W = rng.choice([(1, 1), (1, 2), (2, 1), (1, 6), (6, 1), (2, 2), (2, 5), (5, 2), (3, 1), (1, 3)])
+    else:
+        H, W = rng.randint(2, 10), rng.randint(2, 10)
+    N = H * W
+    wide = rng.chance(0.35)        # values far outside [-pi, pi): the reliability must be taken from the raw input
+    lo, hi = (-4 * ODEN, 4 * ODEN) if wide else (-ODEN, ODEN - 1)
+    qn = [rng.randint(lo, hi) for _ in range(N)]
+    for _ in range(200):
+        bad = [i for i in range(N) if any((qn[i] - qn[j]) % (2 * ODEN) == ODEN for j in nb8(H, W, i))]
+        if not bad:
+            break
+        for i in bad:
+            qn[i] = rng.randint(lo, hi)
+    else:
+        qn = [0] * N
+    mkind = rng.weighted([("none", 4), ("rect", 1), ("annulus", 1), ("blobs", 2), ("sparse", 2), ("border", 1)]) if min(H, W) >= 3 else "none"
+    return {"stream": "order", "H": H, "W": W, "wrap": rng.chance(0.5), "mask": gen_mask(rng, H, W, mkind), "mkind": mkind,
+            "qn": qn, "wide": wide, "dtype": rng.choice(["float32", "float64"])}
+
+
+def eval_order_case(ctx, drv, case):
+    import torch
+    iu = _iu()
+    H, W, wrap = case["H"], case["W"], case["wrap"]
+    N = H * W
+    w = [Fr(v, ODEN) for v in case["qn"]]
+    dt = DTYPES[case["dtype"]]()
+    phi = torch.tensor([float(x) * math.pi for x in w], dtype=torch.float64).reshape(H, W).to(dt)
+    mask = None if case["mask"] is None else torch.tensor(case["mask"], dtype=torch.bool).reshape(H, W)
+    ctx.count()
+    ctx.dist[f"order:dtype:{case['dtype']}"] += 1
+    ctx.dist[f"order:wide-values:{case['wide']}"] += 1
+    ctx.dist[f"order:mask:{case['mkind']}"] += 1
+    ctx.dist[f"order:wrap_around:{wrap}"] += 1
+    rec = Recorder(iu)
+    try:
+        R_impl = iu._pixel_reliability(phi.clone(), None if mask is None else mask.clone())
+        R_impl = [float(v) for v in R_impl.double().flatten().tolist()]
+        with rec:
+            iu.unwrap_phase_2d_torch(phi.clone(), method="reliability-sorting", mask=None if mask is None else mask.clone(),
+                                     wrap_around=wrap)
+    except Exception as e:  # noqa
+        disagree(ctx, "reliability", case, "a result", err_name(e))
+        return
+    if not rec.edges:
+        disagree(ctx, "anchors", case, "calls _build_edges", "not called")
+        return
+    order = [[a, b] for a, b, _ in rec.edges[0]]
+    m = drv.ask({"op": "reliability", "H": H, "W": W, "phi": [rat(x) for x in w], "mask": case["mask"], "wrap": wrap,
+                 "order": order})
+    if "driver" in str(m.get("err", "")):
+        raise RuntimeError(f"driver error {m}")
+    mo = m["ok"]
+    # reliabilities (float stream; inf exactly where the model says so)
+    tol = 1e-9 if case["dtype"] == "float64" else 5e-4
+    model_R = [None if s is None else float(Fr(s)) * math.pi ** 2 for s in mo["R"]]
+    scale = max([1.0] + [abs(v) for v in model_R if v is not None])
+    worst = 0.0
+    for i in range(N):
+        if model_R[i] is None:
+            if R_impl[i] != float("inf"):
+                disagree(ctx, "reliability", case, "inf", R_impl[i], note=f"pixel {i} outside the mask")
+                break
+        else:
+            worst = max(worst, abs(R_impl[i] - model_R[i]) / scale)
+    ctx.stat_max(f"reliability:max |impl-model|/scale ({case['dtype']})", worst)
+    if worst > tol:
+        disagree(ctx, "reliability", case, model_R[:8], R_impl[:8], note=f"_pixel_reliability, distance/scale {worst:.3g} > {tol}")
+    # the ORDER the real sort produced: a permutation of the masked pairs, ascending in the model's exact edge reliability
+    if not mo["perm"]:
+        disagree(ctx, "edge-order", case, "a permutation of the masked neighbour pairs", "not a permutation")
+    elif not mo["ascending"]:
+        rel = [None if s is None else Fr(s) for s in mo["rel"]]
+        k = next((i for i in range(len(rel) - 1) if rel[i] is None or (rel[i + 1] is not None and rel[i] > rel[i + 1])), 0)
+        disagree(ctx, "edge-order", case, "edges merged in ascending order of the model's edge reliability (ties free)",
+                 {"position": k, "pair": order[k:k + 2], "model_rel": [str(x) for x in rel[k:k + 2]]},
+                 note="the order used by the real run is not ascending in the exact reliabilities")
+    distinct = len({s for s in mo["rel"]})
+    ctx.dist[f"order:distinct-edge-reliabilities:{'1' if distinct <= 1 else '2-5' if distinct <= 5 else '6-20' if distinct <= 20 else '>20'}"] += 1
+    if distinct >= 4:
+        ctx.mark(("order", H, W, wrap, case["mkind"], case["wide"], case["dtype"], min(distinct, 30)))
+        ctx.sample({"stream": "edge-order", "H": H, "W": W, "wrap_around": wrap, "mask": case["mkind"], "edges": len(order),
+                    "distinct_edge_reliabilities": distinct, "first_pairs": order[:4], "first_model_rel_over_pi2": mo["rel"][:4]}, limit=7)
+
+
 def gen_edges_case(rng):
     H, W = gen_shape(rng, small=True)
     N = H * W
@@ -757,9 +929,9 @@ def eval_uf_case(ctx, drv, case):
 # ---------------------------------------------------------------------------------------
 # bf-overlap embedding
 
-def gen_bf_case(rng):
+def gen_bf_case(rng, fixed=None):
     import numpy as np
-    H, W = rng.randint(4, 16), rng.randint(4, 16)
+    H, W = (fixed["H"], fixed["W"]) if fixed else (rng.randint(4, 16), rng.randint(4, 16))
     N = H * W
     yy, xx = np.mgrid[:H, :W].astype(float)
     # bf disk (sometimes touching the border), overlap mask = disk ∩ shifted disk (or variants)
@@ -768,6 +940,11 @@ def gen_bf_case(rng):
     bf = np.hypot(yy - cy, xx - cx) <= rad
     if not bf.any():
         bf[H // 2, W // 2] = True
+    if fixed:
+        bf = np.array(fixed["bf_mask"], dtype=bool).reshape(H, W)
+        ys, xs = np.nonzero(bf)
+        cy, cx = float(ys.mean()), float(xs.mean())
+        rad = max(1.0, math.sqrt(bf.sum() / math.pi))
     mk = rng.weighted([("lens", 4), ("all", 2), ("two", 2), ("none", 1), ("sparse", 1)])
     if mk == "lens":
         sy, sx = rng.uniform(-rad, rad), rng.uniform(-rad, rad)
@@ -782,6 +959,8 @@ def gen_bf_case(rng):
         ov = bf & np.array([[rng.chance(0.6) for _ in range(W)] for _ in range(H)], dtype=bool)
     mgrid = [int(v) for v in ov.flatten()]
     wrap = rng.weighted([(None, 3), (True, 1), (False, 2)])     # None: the function's default (True)
+    if fixed:
+        wrap = fixed["wrap"]      # one call signature for all images of a stack: Itoh on the pairs THAT setting uses
     pairs = used_pairs(H, W, mgrid, wrap is not False)
     mode = rng.weighted([("smooth", 8), ("raw", 2)])
     if mode == "smooth":
@@ -794,18 +973,67 @@ def gen_bf_case(rng):
         kind = "raw"
         qn = gen_raw(rng, N, pairs)
     return {"stream": "bf", "H": H, "W": W, "bf_mask": [int(v) for v in bf.flatten()], "mask_grid": mgrid,
-            "qn": qn, "mode": mode, "kind": kind, "mkind": mk, "two_pass": rng.chance(0.6), "wrap": wrap,
+            "qn": qn, "mode": mode, "kind": kind, "mkind": mk, "two_pass": fixed["two_pass"] if fixed else rng.chance(0.6), "wrap": wrap,
             "cdtype": "complex64"}   # the function scatters into a float32 grid: complex128 input raises (dtype mismatch)
 
 
-def eval_bf_case(ctx, drv, case):
+def gen_bf_stack_case(rng):
+    """several images through ONE bf_mask, as the caller's loop does (out[:, j] = f(data[:, j], mask[:, j], bf_mask))"""
+    first = gen_bf_case(rng)
+    imgs = [first]
+    for _ in range(rng.randint(0, 4)):
+        # same geometry, call signature and bf_mask; only the overlap mask and the field change
+        imgs.append(gen_bf_case(rng, fixed=first))
+    return {"stream": "bf_stack", "images": imgs}
+
+
+def eval_bf_stack_case(ctx, drv, case):
     import torch
-    from quantem.diffractive_imaging import direct_ptycho_utils as dpu
-    iu = _iu()
+    imgs = case["images"]
+    first = imgs[0]
+    H, W, bf = first["H"], first["W"], first["bf_mask"]
+    N = H * W
+    pos = [i for i in range(N) if bf[i]]
+    preps = [(c, prep_bf(None, c)) for c in imgs]
+    preps = [(c, p) for c, p in preps if p is not None]
+    ctx.dist[f"bf_stack:images:{len(preps)}"] += 1
+    if not preps:
+        return
+    # the caller's 2-D tensors: column j is image j (columns are NON-contiguous views, as in the caller)
+    ang = torch.tensor([[float(p["w"][i]) * math.pi for _, p in preps] for i in pos], dtype=torch.float64)
+    data = torch.polar(torch.ones_like(ang), ang).to(torch.complex64)
+    masks = torch.tensor([[bool(c["mask_grid"][i]) for c, _ in preps] for i in pos], dtype=torch.bool)
+    got = []
+    for j, (c, _) in enumerate(preps):
+        eval_bf_case(ctx, drv, c, tensors=(data[:, j], masks[:, j]), collect=got)
+    if len(got) != len(preps):
+        return      # an image failed; already reported by eval_bf_case
+    m = drv.ask({"op": "bf_stack", "H": H, "W": W, "bf_mask": bf, "two_pass": first["two_pass"],
+                 "images": [{k: g[k] for k in ("mask_bf", "phase", "order1", "order2")} for g in got]})
+    if "driver" in str(m.get("err", "")):
+        raise RuntimeError(f"driver error {m}")
+    ctx.count()
+    res = m.get("ok")
+    if not isinstance(res, list) or len(res) != len(got):
+        disagree(ctx, "bf-stack", case, f"{len(got)} results", res if not isinstance(res, list) else len(res))
+        return
+    for j, (g, r) in enumerate(zip(got, res)):
+        if r is None:
+            disagree(ctx, "bf-stack", case, "a result", "NonTermination", note=f"image {j}")
+            continue
+        model_out = [float(Fr(x)) * math.pi for x in r["out"]]
+        dist, ok = close(g["out"], model_out, TOL32)
+        if not ok or r["out"] != g["model_out"]:
+            disagree(ctx, "bf-stack", case, model_out, g["out"], note=f"image {j} of {len(got)}: column of the stacked result")
+    if len(got) >= 2:
+        ctx.mark(("bf_stack", H, W, len(got), first["two_pass"], first["wrap"]))
+
+
+def prep_bf(ctx, case):
+    """exact wrapped phases / wrap counts for a bf case, or None when the case sits on a float threshold"""
     H, W = case["H"], case["W"]
     N = H * W
     bf = case["bf_mask"]
-    mgrid = case["mask_grid"]
     pos = [i for i in range(N) if bf[i]]
     q = [Fr(v, DEN) for v in case["qn"]]
     # wrapped phases at the bf pixels; shift the field by a constant so that no wrapped value sits within
@@ -817,28 +1045,42 @@ def eval_bf_case(ctx, drv, case):
             break
         shift += Fr(5, 256)
     else:
-        ctx.dist["bf:rejected:near-pi"] += 1
-        return
+        if ctx is not None:
+            ctx.dist["bf:rejected:near-pi"] += 1
+        return None
     q = [x + shift for x in q]
-    if case["mode"] == "smooth":
-        wn = [wrap_q(x) for x in q]
-        w = [a for a, _ in wn]
-        n = [b for _, b in wn]
-    else:
-        wn = [wrap_q(x) for x in q]
-        w = [a for a, _ in wn]
-        n = [0] * N
+    wn = [wrap_q(x) for x in q]
+    w = [a for a, _ in wn]
+    n = [b for _, b in wn] if case["mode"] == "smooth" else [0] * N
     # the `max - min > pi` test must not sit on the threshold
     grid_vals = [w[i] if bf[i] else Fr(0) for i in range(N)]
     span = max(grid_vals) - min(grid_vals)
     if abs(span - 1) < MARGIN:
-        ctx.dist["bf:rejected:span-near-pi"] += 1
+        if ctx is not None:
+            ctx.dist["bf:rejected:span-near-pi"] += 1
+        return None
+    return {"pos": pos, "q": q, "w": w, "n": n}
+
+
+def eval_bf_case(ctx, drv, case, tensors=None, collect=None):
+    import torch
+    from quantem.diffractive_imaging import direct_ptycho_utils as dpu
+    iu = _iu()
+    H, W = case["H"], case["W"]
+    N = H * W
+    bf = case["bf_mask"]
+    mgrid = case["mask_grid"]
+    prep = prep_bf(ctx if tensors is None else None, case)
+    if prep is None:
         return
+    pos, q, w, n = prep["pos"], prep["q"], prep["w"], prep["n"]
     cdt = torch.complex64 if case["cdtype"] == "complex64" else torch.complex128
     ang = torch.tensor([float(w[i]) * math.pi for i in pos], dtype=torch.float64)
     data = torch.polar(torch.ones_like(ang), ang).to(cdt)
     bf_t = torch.tensor(bf, dtype=torch.bool).reshape(H, W)
     mask_bf = torch.tensor([bool(mgrid[i]) for i in pos], dtype=torch.bool)
+    if tensors is not None:
+        data, mask_bf = tensors
     kwargs = {} if case["wrap"] is None else {"wrap_around": case["wrap"]}
     wrap_eff = case["wrap"] is not False
     rec = Recorder(iu)
@@ -895,6 +1137,9 @@ def eval_bf_case(ctx, drv, case):
     ctx.stat_max("bf-overlap:max |impl-model|/scale", dist)
     if not ok:
         disagree(ctx, "bf-overlap", small_case, model_out, out, note=f"gathered output, distance/scale {dist:.3g} > {TOL32}")
+    if collect is not None:
+        collect.append({"mask_bf": [int(mgrid[i]) for i in pos], "phase": [rat(w[i]) for i in pos], "order1": o1, "order2": o2,
+                        "out": out, "model_out": mo["out"]})
     if wraps and rec.edges:
         ctx.sample({"stream": "bf-overlap", "H": H, "W": W, "bf_pixels": len(pos), "overlap_pixels": sum(mgrid),
                     "two_pass": case["two_pass"], "wrap_around": case["wrap"], "branch": mo["branch"], "components": ncomp}, limit=5)
@@ -903,6 +1148,7 @@ def eval_bf_case(ctx, drv, case):
 # ---------------------------------------------------------------------------------------
 
 EVAL = {"unwrap": eval_unwrap_case, "edges": eval_edges_case, "uf": eval_uf_case, "bf": eval_bf_case,
+        "order": eval_order_case, "bf_stack": eval_bf_stack_case,
         "long": eval_long_case}
 
 
@@ -935,6 +1181,15 @@ def run(ctx):
             eval_long_case(ctx, drv, gen_long_case(ctx.rng.fork(6_000_000 + s), variants[s % 4]))
         if ctx.thorough() and not ctx.search_mode:
             eval_long_case(ctx, drv, gen_long_case(ctx.rng.fork(6_900_000), "bounded", huge=True))
+        # the seam of exactly one axis; medium grids; the edge order; several images through one bf_mask
+        for s in range(ctx.n(80, 1500)):
+            eval_unwrap_case(ctx, drv, gen_seam_case(ctx.rng.fork(7_000_000 + s)))
+        for s in range(ctx.n(4, 40)):
+            eval_unwrap_case(ctx, drv, gen_medium_case(ctx.rng.fork(8_000_000 + s)))
+        for s in range(ctx.n(150, 3000)):
+            eval_order_case(ctx, drv, gen_order_case(ctx.rng.fork(9_000_000 + s)))
+        for s in range(ctx.n(40, 600)):
+            eval_bf_stack_case(ctx, drv, gen_bf_stack_case(ctx.rng.fork(10_000_000 + s)))
         for s in range(n_bf):
             eval_bf_case(ctx, drv, gen_bf_case(ctx.rng.fork(4_000_000 + s)))
         for s in range(n_uf):
